@@ -373,11 +373,46 @@ def r116(ctx, fx):
     else:
         it = repr(lib.hdesc(lib.strip(lib.strip(loop["scrut"])["args"][0])))
         ordered = "sorted" in it or "BTreeMap" in it or "IndexMap" in it
-        whole_path = any(x.get("k") == "mcall" and x.get("name") in ("strip_prefix", "display", "to_str", "components") for x in lib.hwalk(loop)) or \
-            any(x.get("k") == "mcall" and x.get("name") == "to_string_lossy" and "file_stem" not in repr(lib.hdesc(x["recv"])) for x in lib.hwalk(loop))
+        # what reaches the path handed to File::create (through the `let`s of the loop body, every definition of a shadowed name) contains the source's path,
+        # not only its stem
+        lets_all = {}
+        for y in lib.hwalk(loop):
+            if y.get("k") == "let" and "init" in y and y["pat"].get("k") == "bind":
+                lets_all.setdefault(y["pat"]["name"], []).append(y["init"])
+        creates = [x for x, p in lib.hir_calls(loop, "File::create")]
+        todo = [lib.hargs(c)[0] for c in creates]
+        chain, seen_n = [], set()
+        while todo and len(chain) < 40:
+            e = todo.pop()
+            chain.append(e)
+            for y in lib.hwalk(e):
+                nm = lib.hpath(y) if y.get("k") == "path" else None
+                if nm in lets_all and nm not in seen_n:
+                    seen_n.add(nm)
+                    todo.extend(lets_all[nm])
+        whole_path = any(x.get("k") == "mcall" and x.get("name") == "to_string_lossy" and "file_stem" not in repr(lib.hdesc(x["recv"]))
+                         for c in chain for x in lib.hwalk(c)) or \
+            any(x.get("k") == "mcall" and x.get("name") in ("display", "to_str") and "file_stem" not in repr(lib.hdesc(x["recv"])) for c in chain for x in lib.hwalk(c))
         if not whole_path:
             ctx.finding(rid, k, "a listing file is named after the file stem of its source only: `a.asm` and `a.inc`, or equally named files in different directories, "
                         "overwrite each other's listing", "%s:%s" % (bc.file, loop.get("ln")))
+        # … and distinct paths get distinct names: the path separators are not folded into another character of file names for sources inside the project
+        lets = {}
+        for y in lib.hwalk(bc.hir["body"]):
+            if y.get("k") == "let" and "init" in y and y["pat"].get("k") == "bind":
+                lets[y["pat"]["name"]] = y["init"]
+        for x, anc in _anc_walk(loop):
+            if x.get("k") == "mcall" and x.get("name") == "replace" and any(y.get("k") == "lit" and y.get("v") == "_" for a in x.get("args") or [] for y in lib.hwalk(a)):
+                guarded = False
+                for p_, key in anc:
+                    if p_.get("k") == "if" and key in ("then", "else"):
+                        conds = [p_["cond"]] + [lets[lib.hpath(y)] for y in lib.hwalk(p_["cond"]) if y.get("k") == "path" and lib.hpath(y) in lets]
+                        if any(z.get("k") == "mcall" and z.get("name") == "components" for c in conds for z in lib.hwalk(c)):
+                            guarded = True
+                ctx.inst(rid, k + "|injective", sample={"line": x.get("ln"), "only_outside_the_project": guarded})
+                if not guarded:
+                    ctx.finding(rid, k + "|injective", "the listing of a source inside the project is named after its path with the separators replaced by `_`: `a/b/c.asm` and "
+                                "`a_b/c.asm` get the same name and the second listing replaces the first", "%s:%s" % (bc.file, x.get("ln")))
         if not ordered:
             ctx.finding(rid, k + "|order", "listing files are written in the iteration order of a HashMap", "%s:%s" % (bc.file, loop.get("ln")))
 
